@@ -34,6 +34,7 @@ InitOK(ev) ==
 (* C14 (+ the decode-first half of C13) *)
 DecodeOK(ev) ==
   LET pr == Parse(ev.b, ev.sz) IN
+  /\ ev.ro = 1                                                  \* decoding reads: the caller's bytes are unchanged afterwards
   /\ Mode = "C14" =>
        /\ DecodeRetOK(ev.b, ev.sz, ev.ret)
        /\ ev.ts = 1                                            \* tostring terminated without a signal
